@@ -12,7 +12,7 @@
  *   kind=<name>  only this kind               path~=<s>  path or path2 contains s
  *   dst~=<s>     path2 (rename destination) contains s
  *   wr=1         only opens that can write
- *   act=kill-before | kill-after | errno:<E> | short | sig:<N> (raise, synchronous) | psig:<N> (kill(getpid())) |
+ *   act=kill-before | kill-after | errno:<E> | slowerr:<E> (hang 6.5 s, then fail) | short | sig:<N> (raise, synchronous) | psig:<N> (kill(getpid())) |
  *       sigafter:<N> | delay:<ms>
  * Only paths below the root count; the log itself lives elsewhere.
  */
@@ -189,6 +189,9 @@ static struct op begin(const char *kind, const char *p1, const char *p2, long fl
         else if (!strcmp(a, "sig")) { logf_("F %ld sig:%ld\n", o.n, o.r->arg); raise((int)o.r->arg);
             struct timespec ts = { 0, 3000000L }; nanosleep(&ts, NULL); }
         else if (!strcmp(a, "psig")) { logf_("F %ld psig:%ld\n", o.n, o.r->arg); kill(getpid(), (int)o.r->arg); }
+        /* the operation hangs for 6.5 s and then fails with the given errno (a soft-mounted NFS timing out) */
+        else if (!strcmp(a, "slowerr")) { logf_("F %ld slowerr:%ld\n", o.n, o.r->arg);
+            struct timespec ts = { 6, 500000000L }; nanosleep(&ts, NULL); *inj_errno = (int)o.r->arg; }
         else if (!strcmp(a, "delay")) { logf_("F %ld delay:%ld\n", o.n, o.r->arg);
             struct timespec ts = { o.r->arg / 1000, (o.r->arg % 1000) * 1000000L }; nanosleep(&ts, NULL); }
     }
